@@ -87,7 +87,7 @@ CH = 3
 A, NS, CNAME, SOA, TXT, KEY, DNAME, RRSIG, NSEC, NSEC3 = 1, 2, 5, 6, 16, 25, 39, 46, 47, 50
 ORIGIN = (b"example", b"")
 CLASSES = {"plain": dns.zone.Zone, "versioned": dns.versioned.Zone, "btree": dns.btreezone.Zone}
-TTLS = [0, 1, 60, 300, 300, 3600, 3600, 2 ** 31 - 1, 2 ** 32 - 1]
+TTLS = [0, 1, 60, 300, 300, 3600, 3600, 2 ** 31 - 1, 2 ** 31, 2 ** 32 - 1]
 SERIALS = [0, 1, 5, 77, 2 ** 31 - 1, 2 ** 31, 2 ** 31 + 1, 2 ** 32 - 2, 2 ** 32 - 1]
 REL_NAMES = [(), (b"a",), (b"b",), (b"a", b"b"), (b"c",), (b"d",)]
 TYPE_POOL = [(A, 0)] * 6 + [(CNAME, 0)] * 4 + [(SOA, 0)] * 2 + [(NSEC, 0)] * 3 + [(RRSIG, A)] * 2 + [(RRSIG, CNAME)] * 2 + \
@@ -100,6 +100,10 @@ REF_NEUTRAL = {NSEC, NSEC3, KEY}
 
 class Boom(Exception):
     """the injected exception"""
+
+
+class BoomBase(BaseException):
+    """the injected exception, outside the Exception hierarchy (like KeyboardInterrupt / a cancellation)"""
 
 
 class Hang(BaseException):
@@ -211,8 +215,12 @@ def enc_arg(a):
     k = a[0]
     if k == "N":        # owner given as text: the same call for the model
         k = "n"
-    if k == "I":        # type given as its mnemonic
-        return f"i{a[1]}"
+    if k in ("I", "E", "b"):        # type as mnemonic / as enum member; a bool where an int is admitted
+        return f"i{int(a[1])}"
+    if k == "g":        # GenericRdata twin of a typed record: the same rdata
+        return f"r{a[1]}/{a[2]}/{a[3]}/{a[4]}"
+    if k == "G":        # the rdataset just read with txn.get(), handed back as an argument
+        return "d" + enc_rds(a[2])
     if k == "n":
         return "n" + enc_labels([bytes.fromhex(x) for x in a[1]])
     if k == "s":
@@ -261,7 +269,7 @@ def line_of(which, c, flags, ops, exc, zone=None):
 # the implementation side
 # ------------------------------------------------------------------------------------------------
 def family(e):
-    if isinstance(e, Boom):
+    if isinstance(e, (Boom, BoomBase)):
         return "Veto"
     if isinstance(e, dns.transaction.DeleteNotExact):
         return "DeleteNotExact"
@@ -298,6 +306,27 @@ def dump_zone(z):
     return show_nodes((name, node.rdatasets) for name, node in z.nodes.items())
 
 
+def zone_read_routes(z, post):
+    """the other read routes to the committed content (Zone.iterate_rdatasets / get_rdataset / get_node / keys / `in`)
+    must show what zone.nodes shows"""
+    d = {}
+    for n, rds in z.iterate_rdatasets():
+        d.setdefault(n, []).append(rds)
+    for n in z.keys():
+        d.setdefault(n, [])
+    it = show_nodes(d.items())
+    if it != post:
+        return f"zone.nodes is {post} but Zone.iterate_rdatasets()/keys() give {it}"
+    for name, node in list(z.nodes.items()):
+        if z.get_node(name) is None or name not in z:
+            return f"{name} is in zone.nodes but Zone.get_node / `in` do not find it"
+        for rds in node.rdatasets:
+            got = z.get_rdataset(name, rds.rdtype, rds.covers)
+            if got is None or show_rds(got) != show_rds(rds):
+                return f"Zone.get_rdataset({name}, {int(rds.rdtype)}, {int(rds.covers)}) -> {got}, zone.nodes has {show_rds(rds)}"
+    return None
+
+
 def dump_reader(z):
     with z.reader() as txn:
         names = list(txn.iterate_names())
@@ -311,8 +340,22 @@ def name_text(labels_hex):
     return nm(labels_hex).to_text()
 
 
-def py_arg(a):
+def py_arg(a, txn=None):
     k = a[0]
+    if k == "E":
+        return dns.rdatatype.RdataType(a[1])
+    if k == "b":
+        return bool(a[1])
+    if k == "g":
+        v = a[4]
+        return dns.rdata.GenericRdata(IN, A, bytes([10, 0, (v >> 8) & 255, v & 255]))
+    if k == "G":
+        got = None
+        try:
+            got = txn.get(nm(a[1]), a[2][1], a[2][2])
+        except Exception:
+            pass
+        return got if got is not None and show_rds(got) == enc_rds(a[2]) else mk_rds(a[2])
     if k == "n":
         return nm(a[1])
     if k == "N":
@@ -331,7 +374,8 @@ def py_arg(a):
 
 
 class Hooks:
-    def __init__(self, txn, log=None):
+    def __init__(self, txn, log=None, exc_cls=Boom):
+        self.exc_cls = exc_cls
         self.armed = False
         self.log = log if log is not None else []
         txn.check_put_rdataset(self.put)
@@ -348,17 +392,17 @@ class Hooks:
     def put(self, txn, name, rdataset):
         self.log.append(f"put:{self._key(name)}:{show_rds(rdataset)}")
         if self.armed:
-            raise Boom()
+            raise self.exc_cls()
 
     def delrds(self, txn, name, rdtype, covers):
         self.log.append(f"delrds:{self._key(name)}:{int(rdtype)}/{int(covers)}")
         if self.armed:
-            raise Boom()
+            raise self.exc_cls()
 
     def delname(self, txn, name):
         self.log.append(f"delname:{self._key(name)}")
         if self.armed:
-            raise Boom()
+            raise self.exc_cls()
 
 
 def call_op(txn, hooks, op):
@@ -367,7 +411,7 @@ def call_op(txn, hooks, op):
     if k in ("add", "rep", "del", "dex"):
         hooks.armed = bool(op[1])
         try:
-            args = [py_arg(a) for a in op[2]]
+            args = [py_arg(a, txn) for a in op[2]]
             {"add": txn.add, "rep": txn.replace, "del": txn.delete, "dex": txn.delete_exact}[k](*args)
         finally:
             hooks.armed = False
@@ -384,6 +428,8 @@ def call_op(txn, hooks, op):
                 txn.update_serial(op[2], bool(op[3]))
             elif form == "kn":
                 txn.update_serial(name=nm(op[4]))
+            elif form == "k":
+                txn.update_serial(relative=bool(op[3]), name=nm(op[4]), value=op[2])
             elif form == "t":
                 txn.update_serial(op[2], bool(op[3]), name_text(op[4]))
             else:
@@ -395,6 +441,8 @@ def call_op(txn, hooks, op):
         form = op[4] if len(op) > 4 else ""
         if form == "t":
             r = txn.get(name_text(op[1]), dns.rdatatype.to_text(op[2]), dns.rdatatype.to_text(op[3]))
+        elif form == "k":
+            r = txn.get(covers=op[3], rdtype=dns.rdatatype.RdataType(op[2]), name=nm(op[1]))
         elif form == "d":
             r = txn.get(nm(op[1]), op[2])
         else:
@@ -447,13 +495,13 @@ def open_txn(z, c):
     return z.writer()
 
 
-def run_impl(z, c, ops, exc, uncaught_last=False, log=None):
+def run_impl(z, c, ops, exc, uncaught_last=False, log=None, hard=False):
     """run `ops` in one transaction; every call's exception is caught (user try/except) except, with
     `uncaught_last`, the last one; leave through Boom if `exc`.  Returns the trace."""
     trace = []
     try:
         with open_txn(z, c) as txn:
-            hooks = Hooks(txn, log)
+            hooks = Hooks(txn, log, BoomBase if hard else Boom)
             for i, op in enumerate(ops):
                 if uncaught_last and i == len(ops) - 1:
                     try:
@@ -468,13 +516,13 @@ def run_impl(z, c, ops, exc, uncaught_last=False, log=None):
                         trace.append(call_op(txn, hooks, op))
                     except Hang:
                         raise
-                    except Exception as e:
+                    except (Exception, BoomBase) as e:
                         trace.append("err:" + family(e))
             if exc:
-                raise Boom()
+                raise (BoomBase() if hard else Boom())
     except Hang:
         raise
-    except Exception as e:
+    except (Exception, BoomBase) as e:
         if not (exc or uncaught_last):
             trace.append("EXIT-RAISED:" + family(e))
     return trace
@@ -707,7 +755,19 @@ class Ref:
 
 
 def _plain(args):
-    return [(["n", a[1]] if a[0] == "N" else ["i", a[1]] if a[0] == "I" else a) for a in args]
+    out = []
+    for a in args:
+        if a[0] == "N":
+            out.append(["n", a[1]])
+        elif a[0] in ("I", "E", "b"):
+            out.append(["i", int(a[1])])
+        elif a[0] == "g":
+            out.append(["r"] + list(a[1:]))
+        elif a[0] == "G":
+            out.append(["d", a[2]])
+        else:
+            out.append(a)
+    return out
 
 
 def canonical_store_args(args):
@@ -878,7 +938,7 @@ def eval_hist(ctx: Ctx, c: dict):
         if style == 1 and kidx < len(ops):
             # raising hook on operation kidx (uncaught); if the op does not raise, raise in the body
             ops_k = ops[:kidx] + [veto_variant(ops[kidx])]
-            trace = run_impl(z, c, ops_k, True, uncaught_last=True)
+            trace = run_impl(z, c, ops_k, True, uncaught_last=True, hard=(kidx % 2 == 1))
             line_ops, exc = ops_k, True
             ctx.count("abort.hook")
         elif style == 2:
@@ -888,7 +948,7 @@ def eval_hist(ctx: Ctx, c: dict):
             ctx.count("abort.rollback")
         else:
             ops_k = ops[:kidx]
-            trace = run_impl(z, c, ops_k, True)
+            trace = run_impl(z, c, ops_k, True, hard=(kidx % 2 == 1))
             line_ops, exc = ops_k, True
             ctx.count("abort.raise")
         post = dump_zone(z)
@@ -925,6 +985,9 @@ def eval_hist(ctx: Ctx, c: dict):
     trace = run_impl(z, c, ops, False, log=hook_log)
     post = dump_zone(z)
     ctx.corr(line_of("run", c, flags, ops, False), " ".join(trace) + " | " + post, c)
+    route_problem = zone_read_routes(z, post)
+    if route_problem:
+        ctx.fail(f"C10/zone-read-route/differs-from-published-map/{c['cls']}", route_problem, rep)
     rd = dump_reader(z)
     if rd != post:
         ctx.fail(f"C10/reader/differs-from-published-map/{c['cls']}", f"zone.nodes is {post} but a reader iterates {rd}", rep)
@@ -1036,6 +1099,52 @@ def eval_serial(ctx: Ctx, c: dict):
     want = "err:ValueError" if abs(d) > 2 ** 31 - 1 else "ok:" + str((i1 + d) % 2 ** 32)
     if r != want:
         ctx.fail("C10/serial/add-differs-from-rfc1982", f"Serial({a}) + {d} -> {r}, RFC says {want}", rep)
+    # --- the other routes to the same relations (RFC 1982 reference in plain integers)
+    probs = []
+    for x, y, ix, iy in ((sa, sb, i1, i2), (sa, b % 2 ** 32, i1, i2), (a % 2 ** 32, sb, i1, i2)):
+        rlt = (ix < iy and iy - ix < 2 ** 31) or (ix > iy and ix - iy > 2 ** 31)
+        rgt = (ix < iy and iy - ix > 2 ** 31) or (ix > iy and ix - iy < 2 ** 31)
+        req = ix == iy
+        got = ((x == y), (x != y), (x < y), (x > y), (x <= y), (x >= y))
+        want6 = (req, not req, rlt, rgt, req or rlt, req or rgt)
+        if got != want6:
+            probs.append(f"{type(x).__name__}({ix}) vs {type(y).__name__}({iy}): ==,!=,<,>,<=,>= are {got}, RFC 1982 says {want6}")
+    if (sa == sb) != (sb == sa) or not (sa <= sa) or not (sa >= sa) or (sa != sa):
+        probs.append(f"Serial({a}), Serial({b}): == not symmetric or <=/>= not reflexive")
+    if hash(sa) != hash(dns.serial.Serial(i1)) or (sa == sb and hash(sa) != hash(sb)):
+        probs.append(f"hash(Serial({a})) is not that of the equal Serial({i1})")
+    if (sa in {sb}) != (i1 == i2):
+        probs.append(f"set membership of Serial({a}) in {{Serial({b})}} is {sa in {sb}}")
+
+    def arith(f):
+        try:
+            return "ok:" + str(f().value)
+        except ValueError:
+            return "err:ValueError"
+
+    def iadd():
+        x = dns.serial.Serial(a)
+        x += d
+        return x
+
+    def isub():
+        x = dns.serial.Serial(a)
+        x -= d
+        return x
+
+    wsub = "err:ValueError" if abs(d) > 2 ** 31 - 1 else "ok:" + str((i1 - d) % 2 ** 32)
+    for what, f, w in (("+= int", iadd, want), ("- int", lambda: sa - d, wsub), ("-= int", isub, wsub)):
+        if arith(f) != w:
+            probs.append(f"Serial({a}) {what} {d} -> {arith(f)}, RFC 1982 says {w}")
+    if 0 <= d < 2 ** 32:
+        sd = dns.serial.Serial(d)
+        wadd = "err:ValueError" if d > 2 ** 31 - 1 else "ok:" + str((i1 + d) % 2 ** 32)
+        wsb = "err:ValueError" if d > 2 ** 31 - 1 else "ok:" + str((i1 - d) % 2 ** 32)
+        for what, f, w in (("+ Serial", lambda: sa + sd, wadd), ("- Serial", lambda: sa - sd, wsb)):
+            if arith(f) != w:
+                probs.append(f"Serial({a}) {what}({d}) -> {arith(f)}, RFC 1982 says {w}")
+    for pmsg in probs[:1]:
+        ctx.fail("C10/serial/relation-or-route-differs-from-rfc1982", pmsg, rep)
     if d >= 0:
         # through update_serial's arithmetic (0 -> 1)
         exp = want if want.startswith("err") else ("ok:1" if want == "ok:0" else want)
@@ -1072,6 +1181,31 @@ def eval_vname(ctx: Ctx, c: dict):
     ctx.count("vname." + outs[0].split(":")[0])
 
 
+def eval_bigint(ctx: Ctx, c: dict):
+    """an integer too long for int->str conversion (Python >= 3.11 refuses > 4300 digits) as serial step / value"""
+    rep = {"kind": "bigint", "case": c}
+    big = 10 ** 4400 + c["low"]
+    for cls in CLASSES:
+        cz = {"cls": cls, "rel": 1, "ro": 0, "zone": [[hexl(()), [[IN, SOA, 0, 300, [5]]]]]}
+        z = build_zone(cz)
+        outs = []
+        with z.writer() as txn:
+            for rel_ in (True, False):
+                try:
+                    txn.update_serial(big, rel_)
+                    outs.append("ok")
+                except ValueError as e:
+                    outs.append("ValueError" if "4300" not in str(e) else "ValueError(int->str)")
+                except Exception as e:
+                    outs.append(type(e).__name__)
+        want_serial = (big % 2 ** 32) or 1
+        got = dump_zone(z)
+        if outs != ["ValueError", "ok"] or got != f"@=1/6/0/300/{want_serial}":
+            ctx.fail(f"C10/update_serial/huge-int/{cls}",
+                     f"update_serial(10**4400+{c['low']}) relative/absolute -> {outs}, zone {got}; expected ['ValueError', 'ok'] and serial {want_serial}", rep)
+    ctx.count("bigint")
+
+
 def eval_case(ctx: Ctx, c: dict):
     k = c["kind"]
     signal.signal(signal.SIGALRM, _alarm)
@@ -1083,6 +1217,8 @@ def eval_case(ctx: Ctx, c: dict):
             eval_serial(ctx, c)
         elif k == "vname":
             eval_vname(ctx, c)
+        elif k == "bigint":
+            eval_bigint(ctx, c)
         else:
             raise ValueError(k)
     except Hang:
@@ -1114,7 +1250,11 @@ def spell(rng, c, rel_labels, policy):
 
 
 def odd_name(rng):
-    m = rng.below(4)
+    m = rng.below(6)
+    if m == 4:
+        return hexl([b"x" * 63, b"y" * 63, b"z" * 63, b"w" * 53])          # exactly 255 octets with the origin
+    if m == 5:
+        return hexl([b"x" * 63, b"y" * 63, b"z" * 63, b"w" * 54])          # 256: one too long
     if m == 0:
         return hexl((b"other", b""))
     if m == 1:
@@ -1164,10 +1304,19 @@ def gen_hist(rng, malformed=False):
     for (k, t, cv), (ttl, vals) in sorted(ref.ver.items()):
         rel = k[: len(k) - len(ORIGIN)]
         zone.setdefault(rel, []).append([IN, t, cv, ttl, sorted(vals)])
+    if rng.chance(1, 150):
+        # a zone big enough for the B-tree backed map to have inner nodes (2t-1 = 253 keys per leaf at the default t)
+        c["fill"] = rng.choice([260, 300, 520])
+        if rng.chance(2, 3):
+            c["cls"] = "btree"
+        for i in range(c["fill"]):
+            zone.setdefault((b"f%03d" % i,), []).append([IN, A, 0, 300, [1 + i % 4]])
     c["zone"] = [[hexl(native_name(c, rel).labels), rs] for rel, rs in zone.items()]
     # operations, steering by the reference state
     ref = Ref(c)
     nops = rng.choice([0, 1, 2, 3, 4, 5, 6, 8, 10, 12, 16, 25]) if not rng.chance(1, 3) else rng.range(3, 9)
+    if c.get("fill"):
+        nops = rng.range(2, 6)
     c["ops"] = gen_ops(rng, c, ref, nops, policy, malformed)
     if malformed:
         c["malformed"] = 1
@@ -1181,9 +1330,31 @@ def gen_hist(rng, malformed=False):
     return c
 
 
-def variant_form(rng, op):
-    """the same call through another route of the API: owner as text, type as mnemonic, default arguments"""
+def variant_form(rng, op, ref=None):
+    """the same call through another route of the API: owner as text, type as mnemonic / enum member / bool, default and
+    keyword arguments, a GenericRdata twin, the rdataset object just read with get()"""
     k = op[0]
+    if k in ("add", "rep", "del", "dex") and ref is not None and len(op[2]) == 2 and op[2][0][0] == "n" and op[2][1][0] == "d" \
+            and rng.chance(1, 6):
+        try:
+            kk = ref.canon([bytes.fromhex(x) for x in op[2][0][1]])
+            cur = ref.ver.get((kk, op[2][1][1][1], op[2][1][1][2]))
+        except RefErr:
+            cur = None
+        if cur is not None and cur[1]:
+            return [k, op[1], [op[2][0], ["G", op[2][0][1], [IN, op[2][1][1][1], op[2][1][1][2], cur[0], sorted(cur[1])]]]]
+    if k in ("add", "rep", "del", "dex") and rng.chance(1, 8):
+        args = []
+        for j, a in enumerate(op[2]):
+            if a[0] == "r" and a[1] == IN and a[2] == A and a[4] < 65536:
+                args.append(["g"] + list(a[1:]))
+            elif a[0] == "i" and a[1] in (0, 1) and rng.chance(1, 2):
+                args.append(["b", a[1]])
+            elif a[0] == "i" and k in ("del", "dex") and a[1] < 65536:
+                args.append(["E", a[1]])
+            else:
+                args.append(a)
+        return [k, op[1], args]
     if k in ("add", "rep", "del", "dex") and op[2] and op[2][0][0] == "n" and rng.chance(1, 6):
         args = [["N", op[2][0][1]]] + [list(a) for a in op[2][1:]]
         if k in ("del", "dex"):
@@ -1192,7 +1363,9 @@ def variant_form(rng, op):
     if k in ("del", "dex") and len(op[2]) >= 2 and op[2][1][0] == "i" and rng.chance(1, 5):
         return [k, op[1], [op[2][0]] + [["I", a[1]] if a[0] == "i" else a for a in op[2][1:]]]
     if k == "us" and rng.chance(1, 3):
-        f = rng.choice(["d0", "d1", "d2", "kn", "t"])
+        f = rng.choice(["d0", "d1", "d2", "kn", "t", "k"])
+        if f == "k":
+            return op[:5] + ["k"]
         if f == "d0":
             return ["us", op[1], 1, 1, [], "d0"]
         if f == "d1":
@@ -1206,7 +1379,7 @@ def variant_form(rng, op):
         if op[3] == 0 and rng.chance(1, 4):
             return op[:4] + ["d"]
         if rng.chance(1, 6):
-            return op[:4] + ["t"]
+            return op[:4] + [rng.choice(["t", "k"])]
     if k == "ex" and rng.chance(1, 5):
         return op[:2] + ["t"]
     return op
@@ -1223,6 +1396,8 @@ def gen_ops(rng, c, ref, nops, policy, malformed):
             rel = k[: len(k) - len(ORIGIN)]
         else:
             rel = rng.choice(REL_NAMES)
+            if c.get("fill") and rng.chance(1, 2):
+                rel = (b"f%03d" % rng.below(c["fill"] + 3),)
             t, cv = rng.choice(TYPE_POOL)
         owner = spell(rng, c, rel, policy)
         if rng.chance(1, 40):
@@ -1279,10 +1454,10 @@ def gen_ops(rng, c, ref, nops, policy, malformed):
         elif x < 99:
             op = ["commit"] if rng.chance(1, 2) else ["rollback"]
         else:
-            op = ["get", odd_name(rng), t, cv]
+            op = ["get", odd_name(rng), t, cv] if rng.chance(1, 2) else ["get", owner, 0, 0]
         if op[0] in ("add", "rep", "del", "dex") and rng.chance(1, 40):
             op = empty_variant(op)
-        op = variant_form(rng, op)
+        op = variant_form(rng, op, ref)
         if malformed and rng.chance(1, 3):
             op = mutate_op(rng, op)
         ops.append(op)
@@ -1352,7 +1527,7 @@ def mutate_op(rng, op):
             args = args + [["r", IN, A, 0, 1]]
         return [k, op[1], args]
     if k == "us":
-        return ["us", op[1], rng.choice([-1, -5, 2 ** 31, 2 ** 32, 2 ** 33 + 1, 2 ** 31 - 1]), op[3], op[4]]
+        return ["us", op[1], rng.choice([-1, -5, 2 ** 31, 2 ** 32, 2 ** 33 + 1, 2 ** 31 - 1, 10 ** 4299, -(10 ** 4299)]), op[3], op[4]]
     return op
 
 
@@ -1370,6 +1545,10 @@ def generate(ctx: Ctx, scale: int, rng):
         if ctx.tier == "quick" and time.time() - t_start > 32:
             ctx.notes.append(f"history budget cut at {i + 1} by the quick-tier clock")
             break
+    for low in (0, 7):
+        cb = {"kind": "bigint", "low": low}
+        ctx.case(("bigint", low), sample=None)
+        eval_case(ctx, cb)
     pool = [0, 1, 2, 5, 2 ** 31 - 2, 2 ** 31 - 1, 2 ** 31, 2 ** 31 + 1, 2 ** 32 - 2, 2 ** 32 - 1, 2 ** 32, 2 ** 32 + 1]
     for _ in range(n(600)):
         a = rng.choice(pool) if rng.chance(2, 3) else rng.below(2 ** 32)
